@@ -1,36 +1,6 @@
 From OTV Require Import Lib.Tac Lib.Conc OnceModel.
 Local Open Scope Z_scope.
 
-Definition inwin (r : nat) (l : oloc) : bool :=
-  match ol_pc l with OHelpPin r' | OHelpSub r' => Nat.eqb r' r | _ => false end.
-Definition pinned (r : nat) (l : oloc) : bool :=
-  match ol_pc l with OHelpSub r' | OHelpAssist r' | OHelpUnpin r' => Nat.eqb r' r | _ => false end.
-Definition winning (l : oloc) : bool := match ol_pc l with OWinRun _ | OWinSet _ => true | _ => false end.
-Definition owns (l : oloc) : bool := match ol_pc l with OWinRun _ | OWinSet _ | OWinDtor _ => true | _ => false end.
-Definition setdone (l : oloc) : bool := match ol_pc l with OWinSet true => true | _ => false end.
-Definition retok (l : oloc) : bool := match ol_pc l with ORetOk => true | _ => false end.
-
-Definition at_thread (ls : list oloc) (i : nat) (P : oloc -> bool) : Prop := exists l, nth_error ls i = Some l /\ P l = true.
-
-Definition OInv (c : oshared * list oloc) : Prop :=
-  let g := fst c in let ls := snd c in
-  length (o_refcount g) = length ls /\ length (o_alive g) = length ls /\ length (o_fdone g) = length ls /\
-  (* the word *)
-  (match o_word g with
-   | Running w k => at_thread ls w winning /\ k = Z.of_nat (count (inwin w) ls) /\ (forall r, r <> w -> count (inwin r) ls = 0%nat)
-   | _ => forall r, count (inwin r) ls = 0%nat
-   end) /\
-  (* a thread that believes it is the winner is the one named in the word *)
-  (forall i, at_thread ls i winning -> exists k, o_word g = Running i k) /\
-  (* whoever is inside the window of, or pinned to, runner r: r's owner still owns a live runner, and its
-     m_ref_count is the number of pinned helpers *)
-  (forall r, (1 <= count (inwin r) ls \/ 1 <= count (pinned r) ls)%nat -> at_thread ls r owns /\ getbl (o_alive g) r = true) /\
-  (forall r, at_thread ls r owns -> getr (o_refcount g) r = Z.of_nat (count (pinned r) ls) /\ getbl (o_alive g) r = true) /\
-  o_bad_access g = 0 /\
-  (* the user function completed successfully at most once; done is final *)
-  o_success g = (match o_word g with Done => 1 | _ => Z.of_nat (count setdone ls) end) /\
-  (forall i, at_thread ls i retok -> o_word g = Done).
-
 (* ---------- bounded exhaustive exploration (finite statements about small configurations) ---------- *)
 Fixpoint all_scheds (nthreads len : nat) : list (list nat) :=
   match len with
